@@ -565,9 +565,11 @@ def run(ctx):
     vparam = param_names(util)[0]
     want = {repr(_spec(f"len(str(np.{m}({vparam}.astype(int, copy=False))))")) for m in ("min", "max")}
     summary_ok = {repr(_canon(t)) for t in terms} == want
-    if not summary_ok:
-        raise AnalysisError("number_of_integer_digits no longer matches its summary "
-                            "(len(str(int(min/max)))); re-derive the guard arithmetic")
+    # the column guards (and the refusal of NaN / infinity in B-factor, occupancy and the box, which have no test of their own:
+    # the cast of NaN to int gives a number with 19 digits) rest on this helper measuring ALL values as they were passed
+    ctx.ob("R3.digits-helper", UTIL, "number_of_integer_digits", "max(len(str(min(int(values)))), len(str(max(int(values)))))", summary_ok,
+           "the helper must measure the integer part of the smallest and the largest of all values passed (no value filtered "
+           "out or altered before): the code computes " + (ast.unparse(usum.result)[:200] if usum.result is not None else "nothing"), util.lineno)
     W = Writer(ctx, setf, guards, consts, aparam, dtypes)
 
     # ---------------- ATOM / HETATM record --------------------------------
@@ -904,6 +906,31 @@ def run(ctx):
            center == (head - item, head) and rd == (head, head + per_line * item, item),
            "CONECT writer and reader disagree on the field positions", sb.lineno)
 
+    # the atom numbers of the CONECT records are the serial numbers of the ATOM records: the very array that fills the serial
+    # column (wrapped / hybrid-36 encoded, 5 characters) is what _set_bonds receives, not the raw integer ids
+    fh = [st for st in stmts(setf) if isinstance(st, ast.Assign) and any(isinstance(t, ast.Name) and t.id == "first_half" for t in st.targets)]
+    ctx.need(len(fh) == 1, "assignment of first_half in set_structure")
+    chain = []
+
+    def _flat(e):
+        if isinstance(e, ast.BinOp) and isinstance(e.op, ast.Add):
+            _flat(e.left); _flat(e.right)
+        else:
+            chain.append(e)
+    _flat(fh[0].value)
+    serial = chain[1] if len(chain) > 1 else None
+    while isinstance(serial, ast.Call) and isinstance(serial.func, ast.Attribute):
+        serial = serial.func.value
+    ctx.need(isinstance(serial, ast.Name), "the serial column of the ATOM record is the second piece of first_half")
+    sbc = [c for c in calls(setf) if (call_name(c) or "").endswith("_set_bonds")]
+    ctx.floor("conect-writer-calls", len(sbc), 1)
+    for c in sbc:
+        a = c.args[1] if len(c.args) > 1 else next((k.value for k in c.keywords if k.arg == "atom_ids"), None)
+        ctx.ob("R1.conect-serials", FILE, "PDBFile.set_structure", ast.unparse(c)[:70],
+               isinstance(a, ast.Name) and a.id == serial.id,
+               f"CONECT records must carry the atom serial numbers as they are written in the ATOM records (`{serial.id}`): with hybrid-36 "
+               "or more than 99999 atoms the raw ids have 6 digits, shift the 5-character fields and name other atoms", c.lineno)
+
     # ---------------- R5 lines reset, ID wrap ------------------------------
     resets = [n.id for n in cfg.nodes if n.ast is not None and isinstance(n.ast, ast.Assign)
               and any(dotted(t) == "self.lines" for t in n.ast.targets)
@@ -1062,6 +1089,10 @@ def _m(name, old, new, rule, q=None, rel=FILE, kind="break"):
 
 
 MUTANTS = [
+    _m("conect-raw-ids", "            self._set_bonds(BondList(array.array_length(), bond_array), pdb_atom_id)\n",
+       "            self._set_bonds(BondList(array.array_length(), bond_array), atom_id)\n", "R1.conect-serials"),
+    _m("digits-helper-drops-nan", "    if len(values) == 0:\n        return 0\n", "    values = values[~np.isnan(values)]\n    if len(values) == 0:\n        return 0\n",
+       "R3.digits-helper", rel=UTIL),
     _m("resid-rjust5", "+ pdb_res_id.rjust(4)", "+ pdb_res_id.rjust(5)", "R1.column"),
     _m("tempf-slice", "_temp_f = slice(60, 66)", "_temp_f = slice(60, 67)", "R1.column"),
     _m("bfactor-guard-removed", 'n_b_factor_digits > 3', 'n_b_factor_digits > 4', "R2.piece-exact-width"),
